@@ -54,6 +54,7 @@ type Conn struct {
 	closed  bool // lal called Close
 	st      state
 	owned   bool // has an owning goroutine registered through World.Go
+	pending int  // asynchronous writes queued inside naza's connection and not yet handed to Write
 	client  bool // opened by lal itself (a dial): no World.Go wrapper, finished once lal closed it
 	stalled bool // Write blocks while true (consumer not reading, socket buffer full)
 	inWrite int  // goroutines currently blocked in Write
@@ -145,6 +146,11 @@ func (w *World) quiescentLocked() bool {
 		return false
 	}
 	for _, c := range w.conns {
+		// queued asynchronous writes: settled once they are written, or once the writer is blocked on a
+		// stalled peer (then everything behind it stays queued until the explorer lets it go)
+		if !c.closed && c.pending > 0 && !(c.stalled && c.inWrite > 0 && c.wErr == nil) {
+			return false
+		}
 		if !c.owned || (c.client && c.closed) {
 			continue
 		}
@@ -155,7 +161,7 @@ func (w *World) quiescentLocked() bool {
 				return false
 			}
 		default:
-			if c.inWrite > 0 && c.stalled {
+			if c.inWrite > 0 && c.stalled && c.wErr == nil {
 				continue // blocked on a stalled peer: stable until the explorer unstalls
 			}
 			return false
@@ -259,6 +265,22 @@ func (c *Conn) Peek() []byte {
 	c.w.mu.Lock()
 	defer c.w.mu.Unlock()
 	return append([]byte{}, c.out...)
+}
+
+// VerifPending is called by the instrumented copy of naza's connection (see tools/vgen) whenever a
+// write is queued (+1) or the write loop has dealt with one (-1).
+func (c *Conn) VerifPending(d int) {
+	c.w.mu.Lock()
+	c.pending += d
+	c.w.cond.Broadcast()
+	c.w.mu.Unlock()
+}
+
+// Pending returns the number of queued asynchronous writes.
+func (c *Conn) Pending() int {
+	c.w.mu.Lock()
+	defer c.w.mu.Unlock()
+	return c.pending
 }
 
 // HasOutput reports whether lal has written bytes that were not taken yet.
